@@ -281,10 +281,20 @@ def g_dfs(ck: Check, rule: str) -> None:
                     from .c13 import _within
                     hdr = fm.cfg.loop_header[loop].id
                     scheduled = hdr not in _within(fm, loop, cn, {p.id for p in pushes})
+                    lim_b = set()
+                    if not scheduled:
+                        # the element may be drawn before the limit test: the ways to the next iteration that pass no push all go
+                        # through a taken limit test (abandoning under a limit is judged by the rule about the returned flag)
+                        from .c15 import _limit_params, _mentions_limit
+                        lims = _limit_params(fm)
+                        lim_b = {b_.id for b_ in fm.cfg.nodes if b_.kind == "branch" and b_.test is not None and b_.pol
+                                 and b_.id in fm.cfg.loop_nodes[loop] and _mentions_limit(b_.test, lims)}
+                        if lim_b and hdr not in _within(fm, loop, cn, {p.id for p in pushes} | lim_b):
+                            scheduled = True
                     if scheduled:
                         # the rest of the list stays on the stack with its node
                         fps = frame_pushes(fm, loop, cur, L)
-                        kept = bool(fps) and hdr not in _within(fm, loop, cn, {p.id for p in fps})
+                        kept = bool(fps) and hdr not in _within(fm, loop, cn, {p.id for p in fps} | lim_b)
                         ck.ob(rule, fm, st, kept, "the remaining successors stay on the stack" if kept else
                               f"after `{text(st)}` the frame ({cur}, {L}) is not pushed back on every path: the remaining "
                               f"successors of `{cur}` are never visited", key=f"frame kept after {text(st)}")
